@@ -17,7 +17,7 @@ func init() {
 		Technique: "witness-path analysis of chunkWriter.writeHeader (every path to the header write passes a framing witness: declared length, chunking, bodiless status/HEAD, or close-after-reply), coupling of the chunking flag with the Transfer-Encoding/Content-Length header edits, guard census, who-may-write census of chunking/closeAfterReply, path rules on chunkWriter.Write/close and response.write/finishRequest, key agreement and input coverage of the statusLine memo map, goroutine join analysis of the periodic response flusher (start/stop coupling, blocking send on every path of Stop, who-may-write census of the stop channel with capacity 0, no Flush reachable on the stop arm)",
 		Meta: core.Meta{
 			Level:       "other",
-			Explanation: "Decides the framing decision's structure, not the bytes: (a) chunkWriter.chunking is written only by writeHeader, only with true, always together with setHeader.transferEncoding = \"chunked\" (and vice versa), only for HTTP/1.1+, non-HEAD, status not 304/204 and no surviving declared Content-Length, and every path from there to the header write deletes Content-Length; (b) every path of writeHeader that reaches the header write passes one of: declared Content-Length (contentLength != -1 still true), chunking := true, HEAD, 304, 204, closeAfterReply := true - and no path that does not chunk (other than HEAD/304) reaches the header write with a handler-supplied Transfer-Encoding still in place; a synthesised Content-Length is stored together with response.contentLength and before the hasCL test; Content-Length is deleted only under chunking, 304, or where the declared-length flag is cleared; the delHeader closure really deletes or excludes; (c) closeAfterReply is written only by writeHeader, requestTooLarge and finishRequest, reset to false only under the HTTP/1.0 keep-alive + Content-Length + Connection: keep-alive test and never after it was set; finishRequest sets it when fewer bytes than declared were written; conn.serve cannot start reading the next request while it is set; (d) chunkWriter.Write emits the chunk-size line before and CRLF after the data exactly when chunking, writes nothing for HEAD; chunkWriter.close emits the last-chunk exactly when chunking; response.write refuses bodies for 304 and beyond the declared length; finishRequest always flushes and closes the chunk writer. (e) the Status-Line memo (statusLines): a get-or-compute function of bfe_server fills a package-level map only under the key it looked up, and every parameter the cached value depends on (request version, code) is an input of that key. (f) the periodic flusher is joined before the reply is finished: for every `go x.Loop()` in bfe_server/bfe_http whose receiver is a bfe_http writer (Write+Flush methods) and whose loop flushes (MaxLatencyWriter.FlushLoop, started by ReverseProxy.copyResponse when a flush interval is configured) - the starter defers (or calls on every path) a stop method of the same object next to the go statement; the stop method performs a plain blocking send on the stop channel field on every path; every channel ever stored into that field is make(chan, 0), so the send returns only when the loop has taken the signal, i.e. while it is not inside Flush; and on the arm that took the signal the loop cannot reach another Flush. Otherwise response.finishRequest flushes the same bufio buffers concurrently with a Flush in progress and entity bytes go out twice / interleaved with the last-chunk. Not covered: the bytes on the wire, the text of the status line, body equality with the backend body, suppression of bodies for 1xx/204 in Write, header values, trailers, what the reverse proxy copies into the response header.",
+			Explanation: "Decides the framing decision's structure, not the bytes: (a) chunkWriter.chunking is written only by writeHeader, only with true, always together with setHeader.transferEncoding = \"chunked\" (and vice versa), only for HTTP/1.1+, non-HEAD, status not 304/204 and no surviving declared Content-Length, and every path from there to the header write deletes Content-Length; (b) every path of writeHeader that reaches the header write passes one of: declared Content-Length (contentLength != -1 still true), chunking := true, HEAD, 304, 204, closeAfterReply := true - and no path that does not chunk (other than HEAD/304) reaches the header write with a handler-supplied Transfer-Encoding still in place; a synthesised Content-Length is stored together with response.contentLength and before the hasCL test; Content-Length is deleted only under chunking, 304, or where the declared-length flag is cleared; the delHeader closure really deletes or excludes; (c) closeAfterReply is written only by writeHeader, requestTooLarge and finishRequest, reset to false only under the HTTP/1.0 keep-alive + Content-Length + Connection: keep-alive test and never after it was set; finishRequest sets it when fewer bytes than declared were written; conn.serve cannot start reading the next request while it is set; (d) chunkWriter.Write emits the chunk-size line before and CRLF after the data exactly when chunking, writes nothing for HEAD; chunkWriter.close emits the last-chunk exactly when chunking; response.write refuses bodies for 304 and beyond the declared length; finishRequest always flushes and closes the chunk writer. (e) the Status-Line memo (statusLines): a get-or-compute function of bfe_server fills a package-level map only under the key it looked up, and every parameter the cached value depends on (request version, code) is an input of that key. (f) the periodic flusher is joined before the reply is finished: for every `go x.Loop()` in bfe_server/bfe_http whose receiver is a bfe_http writer (Write+Flush methods) and whose loop flushes (MaxLatencyWriter.FlushLoop, started by ReverseProxy.copyResponse when a flush interval is configured) - the starter defers (or calls on every path) a stop method of the same object next to the go statement; the stop method performs a plain blocking send on the stop channel field on every path; every channel ever stored into that field is make(chan, 0), so the send returns only when the loop has taken the signal, i.e. while it is not inside Flush; and on the arm that took the signal the loop cannot reach another Flush. Otherwise response.finishRequest flushes the same bufio buffers concurrently with a Flush in progress and entity bytes go out twice / interleaved with the last-chunk. All rules about chunkWriter.writeHeader, requestTooLarge and finishRequest look at the region of the function (the function plus unexported helpers called from nowhere else): writers of closeAfterReply / chunking inside such helpers are reviewed writers, guards of a store inside a helper include the guards of its call site, and the witness-path queries inline the helpers; the path search binds boolean phis to the operand of the edge taken, so named booleans (`ok := a && b; if ok`), tagless switches (whose cases go/ssa evaluates in value context) and inverted / nested conditions decide like the if-chain. Forms not followed (reported): chunking = true and transferEncoding = \"chunked\" in two different functions, the header-deleting closure called from a helper, the header write moved more than four helper levels away. Not covered: the bytes on the wire, the text of the status line, body equality with the backend body, suppression of bodies for 1xx/204 in Write, header values, trailers, what the reverse proxy copies into the response header.",
 			RuleText:    "obligations = each writer of chunking/closeAfterReply/transferEncoding, each required guard of the chunking store, one witness-path query per framing clause, each Content-Length deletion, each data-write site of chunkWriter.Write/response.write, the exits of chunkWriter.close/finishRequest/delHeader, each fill of a looked-up package-level memo map (key identity, key covers the value's inputs), per flusher goroutine start (coupled stop), per stop method (blocking send on all paths), per store to the stop channel field (unbuffered), per stop arm of the loop (no further Flush)",
 			Assumptions: []string{"response.contentLength != -1 means a valid Content-Length header is present (established by response.WriteHeader, checked: it is the only other writer)", "bufio never calls chunkWriter.Write with an empty slice"},
 		},
@@ -47,6 +47,9 @@ func init() {
 			{Name: "silent-flush-loop-logs", Silent: true, File: "bfe_http/common.go", Old: "		case <-t.C:\n			m.Flush()", New: "		case <-t.C:\n			if err := m.Flush(); err != nil {\n				slog.Logger.Debug(\"MaxLatencyWriter.FlushLoop(): %v\", err)\n			}"},
 			{Name: "silent-status-line-fill-helper", Silent: true, File: "bfe_server/chunk_writer.go", Old: "		statusLines[key] = line\n	}\n	return line\n}\n", New: "		slot := key\n		storeStatusLine(slot, line)\n	}\n	return line\n}\n\nfunc storeStatusLine(k int, s string) {\n	statusLines[k] = s\n}\n"},
 			{Name: "silent-reorder-and-log", Silent: true, File: "bfe_server/chunk_writer.go", Old: "		cw.chunking = true\n		setHeader.transferEncoding = \"chunked\"", New: "		setHeader.transferEncoding = \"chunked\"\n		log.Logger.Debug(\"chunked reply\")\n		cw.chunking = true"},
+			{Name: "silent-close-decision-in-helper", Silent: true, File: "bfe_server/chunk_writer.go", Old: "\t\tw.closeAfterReply = true\n\t\tdelHeader(\"Transfer-Encoding\") // in case already set\n\t}\n\n\t// Cannot use Content-Length with non-identity Transfer-Encoding.\n\tif cw.chunking {\n\t\tdelHeader(\"Content-Length\")\n\t}\n\tif !w.req.ProtoAtLeast(1, 0) {\n\t\treturn\n\t}\n\n\tif w.closeAfterReply && !bfe_http.HasToken(cw.header.GetDirect(\"Connection\"), \"close\") {\n\t\tdelHeader(\"Connection\")\n\t\tif w.req.ProtoAtLeast(1, 1) {\n\t\t\tsetHeader.connection = \"close\"\n\t\t}\n\t}\n\n\tprev := w.conn.buf.TotalWrite\n\tw.conn.buf.WriteString(statusLine(w.req, code))\n\tcw.header.WriteSubset(w.conn.buf, excludeHeader)\n\tsetHeader.Write(w.conn.buf.Writer)\n\n\tw.conn.buf.Write(crlf)\n\tw.headerWritten = int64(w.conn.buf.TotalWrite - prev)\n}\n", New: "\t\tw.closeDelimitsBody()\n\t\tdelHeader(\"Transfer-Encoding\") // in case already set\n\t}\n\n\t// Cannot use Content-Length with non-identity Transfer-Encoding.\n\tif cw.chunking {\n\t\tdelHeader(\"Content-Length\")\n\t}\n\tif !w.req.ProtoAtLeast(1, 0) {\n\t\treturn\n\t}\n\n\tif w.closeAfterReply && !bfe_http.HasToken(cw.header.GetDirect(\"Connection\"), \"close\") {\n\t\tdelHeader(\"Connection\")\n\t\tif w.req.ProtoAtLeast(1, 1) {\n\t\t\tsetHeader.connection = \"close\"\n\t\t}\n\t}\n\n\tprev := w.conn.buf.TotalWrite\n\tw.conn.buf.WriteString(statusLine(w.req, code))\n\tcw.header.WriteSubset(w.conn.buf, excludeHeader)\n\tsetHeader.Write(w.conn.buf.Writer)\n\n\tw.conn.buf.Write(crlf)\n\tw.headerWritten = int64(w.conn.buf.TotalWrite - prev)\n}\n\n// closeDelimitsBody: the end of the body is signalled by closing the connection.\nfunc (w *response) closeDelimitsBody() {\n\tw.closeAfterReply = true\n}\n"},
+			{Name: "silent-keepalive-chain-as-switch", Silent: true, File: "bfe_server/chunk_writer.go", Old: "\tif w.req.WantsHttp10KeepAlive() && (isHEAD || hasCL) {\n\t\t_, connectionHeaderSet := header[\"Connection\"]\n\t\tif !connectionHeaderSet {\n\t\t\tsetHeader.connection = \"keep-alive\"\n\t\t}\n\t} else if !w.req.ProtoAtLeast(1, 1) || w.req.WantsClose() {\n\t\tw.closeAfterReply = true\n\t}\n", New: "\tswitch {\n\tcase w.req.WantsHttp10KeepAlive() && (isHEAD || hasCL):\n\t\t_, connectionHeaderSet := header[\"Connection\"]\n\t\tif !connectionHeaderSet {\n\t\t\tsetHeader.connection = \"keep-alive\"\n\t\t}\n\tcase !w.req.ProtoAtLeast(1, 1) || w.req.WantsClose():\n\t\tw.closeAfterReply = true\n\t}\n"},
+			{Name: "silent-named-length-booleans", Silent: true, File: "bfe_server/response.go", Old: "\tif w.contentLength != -1 && w.written > w.contentLength {\n\t\treturn 0, ErrContentLength\n\t}\n", New: "\tdeclared := w.contentLength != -1\n\ttooLong := declared && w.written > w.contentLength\n\tif tooLong {\n\t\treturn 0, ErrContentLength\n\t}\n"},
 		},
 	})
 }
@@ -147,6 +150,7 @@ func runC27(c *core.Ctx) {
 	}
 	isStatus, isMethod, isCLen := h1bIsField(e.status), h1bIsField(e.method), h1bIsField(e.contentLength)
 	// declared-length flag: contentLength != -1, possibly merged with false
+	// (contentLength == -1 is the same flag negated: h1bCmp folds the polarity)
 	var isHasCL func(v ssa.Value, d int) bool
 	isHasCL = func(v ssa.Value, d int) bool {
 		if d > 4 {
@@ -155,6 +159,13 @@ func runC27(c *core.Ctx) {
 		switch x := v.(type) {
 		case *ssa.BinOp:
 			return x.Op == token.NEQ && (isCLen(x.X) && h1bIsInt(-1)(x.Y) || isCLen(x.Y) && h1bIsInt(-1)(x.X))
+		case *ssa.UnOp:
+			if x.Op == token.NOT {
+				if b, ok := x.X.(*ssa.BinOp); ok {
+					return b.Op == token.EQL && (isCLen(b.X) && h1bIsInt(-1)(b.Y) || isCLen(b.Y) && h1bIsInt(-1)(b.X))
+				}
+			}
+			return false
 		case *ssa.Phi:
 			n := 0
 			for _, ed := range x.Edges {
@@ -170,7 +181,16 @@ func runC27(c *core.Ctx) {
 		}
 		return false
 	}
-	hasCLFact := func(f h1bFact, pol bool) bool { return f.Pol == pol && isHasCL(f.V, 0) }
+	hasCLFact := func(f h1bFact, pol bool) bool {
+		if isHasCL(f.V, 0) {
+			return f.Pol == pol
+		}
+		// `contentLength == -1` / `-1 == contentLength` established or refuted
+		if b, ok := f.V.(*ssa.BinOp); ok && b.Op == token.EQL && (isCLen(b.X) && h1bIsInt(-1)(b.Y) || isCLen(b.Y) && h1bIsInt(-1)(b.X)) {
+			return f.Pol != pol
+		}
+		return false
+	}
 	isHEAD := func(f h1bFact) bool { return h1bEq(f, isMethod, h1bIsStr("HEAD")) }
 	notHEAD := func(f h1bFact) bool { return h1bNe(f, isMethod, h1bIsStr("HEAD")) }
 	isCode := func(n int64) func(f h1bFact) bool {
@@ -194,8 +214,9 @@ func runC27(c *core.Ctx) {
 		s, isStr := core.ConstString(call.Call.Args[0])
 		return isStr && s == name
 	}
+	whRegion := h1bRegionSet(c.P, wh)
 	var headerWrites []ssa.Instruction
-	for _, ci := range core.Calls(wh, "bfe_http.Header.WriteSubset", "bfe_http.Header.Write") {
+	for _, ci := range c.P.RegionCalls(wh, "bfe_http.Header.WriteSubset", "bfe_http.Header.Write") {
 		headerWrites = append(headerWrites, ci.(ssa.Instruction))
 	}
 	if len(headerWrites) == 0 {
@@ -218,20 +239,20 @@ func runC27(c *core.Ctx) {
 	for _, st := range core.FieldStores(all, e.chunking) {
 		k := core.FuncKey(st.Fn)
 		v, isB := h1bConstBool(st.Store.Val)
-		c.Check("chunking-writers", h1bOrd(k, n), st.Store.Pos(), st.Fn == wh && isB && v,
+		c.Check("chunking-writers", h1bOrd(k, n), st.Store.Pos(), whRegion[st.Fn] && isB && v,
 			"chunkWriter.chunking is written with "+core.Render(st.Store.Val)+" in "+k+"; only `= true` in chunkWriter.writeHeader (next to the Transfer-Encoding decision) is reviewed")
 	}
 	c.Min("chunking-writers", 1)
 	chunkStores := []*ssa.Store{}
-	for _, st := range h1bStoresOf(wh, e.chunking) {
-		chunkStores = append(chunkStores, st)
+	for _, st := range core.FieldStores(c.P.Region(wh), e.chunking) {
+		chunkStores = append(chunkStores, st.Store)
 	}
 	var teStores []core.StoreTo
 	teStores = core.FieldStores(c.P.SrcFuncs(srv), teFld)
 	for i, cs := range chunkStores {
 		ok := false
 		for _, ts := range teStores {
-			if ts.Fn == wh && h1bIsStr("chunked")(ts.Store.Val) && h1bCoupled(cs, ts.Store) {
+			if whRegion[ts.Fn] && h1bIsStr("chunked")(ts.Store.Val) && h1bCoupled(cs, ts.Store) {
 				ok = true
 			}
 		}
@@ -241,7 +262,7 @@ func runC27(c *core.Ctx) {
 	for i, ts := range teStores {
 		ok := false
 		for _, cs := range chunkStores {
-			if ts.Fn == wh && h1bIsStr("chunked")(ts.Store.Val) && h1bCoupled(cs, ts.Store) {
+			if whRegion[ts.Fn] && h1bIsStr("chunked")(ts.Store.Val) && h1bCoupled(cs, ts.Store) {
 				ok = true
 			}
 		}
@@ -252,17 +273,17 @@ func runC27(c *core.Ctx) {
 	for i, cs := range chunkStores {
 		b := cs.Block()
 		key := fmt.Sprintf("writeHeader:chunking#%d:", i+1)
-		facts := h1bJoinFacts(h1bFactsAt(b))
-		c.Check("chunking-guard", key+"http11", cs.Pos(), h1bGuarded(b, func(f h1bFact) bool {
+		facts := h1bJoinFacts(h1bFactsAtR(c.P, b))
+		c.Check("chunking-guard", key+"http11", cs.Pos(), h1bGuardedR(c.P, b, func(f h1bFact) bool {
 			call, ok := f.V.(*ssa.Call)
 			return ok && f.Pol && core.CallIs(&call.Call, "bfe_http.Request.ProtoAtLeast") && len(call.Call.Args) == 3 && h1bIsInt(1)(call.Call.Args[1]) && h1bIsInt(1)(call.Call.Args[2])
 		}), "chunked encoding is chosen without req.ProtoAtLeast(1, 1) == true: an HTTP/1.0 client cannot parse it; established: "+facts)
-		c.Check("chunking-guard", key+"no-declared-length", cs.Pos(), h1bGuarded(b, func(f h1bFact) bool { return hasCLFact(f, false) }),
+		c.Check("chunking-guard", key+"no-declared-length", cs.Pos(), h1bGuardedR(c.P, b, func(f h1bFact) bool { return hasCLFact(f, false) }),
 			"chunked encoding is chosen although the declared Content-Length flag (contentLength != -1) was not tested false; established: "+facts)
-		c.Check("chunking-guard", key+"not-head", cs.Pos(), h1bGuarded(b, notHEAD), "chunked encoding is chosen without Method != HEAD; established: "+facts)
-		c.Check("chunking-guard", key+"not-304", cs.Pos(), h1bGuarded(b, notCode(304)), "chunked encoding is chosen without status != 304; established: "+facts)
-		c.Check("chunking-guard", key+"not-204", cs.Pos(), h1bGuarded(b, notCode(204)), "chunked encoding is chosen without status != 204; established: "+facts)
-		bad := h1bReach(wh, cs, func(x ssa.Instruction) bool { return delHeader(x, "Content-Length") }, chunkingFact(false), isHdrWrite)
+		c.Check("chunking-guard", key+"not-head", cs.Pos(), h1bGuardedR(c.P, b, notHEAD), "chunked encoding is chosen without Method != HEAD; established: "+facts)
+		c.Check("chunking-guard", key+"not-304", cs.Pos(), h1bGuardedR(c.P, b, notCode(304)), "chunked encoding is chosen without status != 304; established: "+facts)
+		c.Check("chunking-guard", key+"not-204", cs.Pos(), h1bGuardedR(c.P, b, notCode(204)), "chunked encoding is chosen without status != 204; established: "+facts)
+		bad := h1bReachR(c.P, wh, cs, func(x ssa.Instruction) bool { return delHeader(x, "Content-Length") }, chunkingFact(false), isHdrWrite)
 		c.Check("chunking-drops-cl", fmt.Sprintf("writeHeader:chunking#%d", i+1), cs.Pos(), bad == nil,
 			"a path from chunking = true reaches the header write without delHeader(\"Content-Length\"): the reply would carry both Content-Length and Transfer-Encoding: chunked")
 	}
@@ -335,14 +356,14 @@ func runC27(c *core.Ctx) {
 	c.Min("delheader-closure", 2)
 
 	// (b) framing witness on every path to the header write
-	bad := h1bReach(wh, nil, func(x ssa.Instruction) bool { return storeChunk(x) || storeClose(x) },
+	bad := h1bReachR(c.P, wh, nil, func(x ssa.Instruction) bool { return storeChunk(x) || storeClose(x) },
 		func(f h1bFact) bool {
 			return isHEAD(f) || isCode(304)(f) || isCode(204)(f) || hasCLFact(f, true)
 		}, isHdrWrite)
 	c.Check("framing-decided", "writeHeader", wh.Pos(), bad == nil,
 		"a path reaches the header write without a declared Content-Length, without chunking = true, without HEAD/304/204 and without closeAfterReply = true: the client cannot tell where the body ends and the connection stays open")
 	c.Min("framing-decided", 1)
-	bad = h1bReach(wh, nil, func(x ssa.Instruction) bool { return storeChunk(x) || delHeader(x, "Transfer-Encoding") },
+	bad = h1bReachR(c.P, wh, nil, func(x ssa.Instruction) bool { return storeChunk(x) || delHeader(x, "Transfer-Encoding") },
 		func(f h1bFact) bool { return isHEAD(f) || isCode(304)(f) }, isHdrWrite)
 	c.Check("te-consistent", "writeHeader", wh.Pos(), bad == nil,
 		"a path reaches the header write with chunking off (not HEAD/304) and without delHeader(\"Transfer-Encoding\"): a handler-supplied Transfer-Encoding line would announce a framing the body writer does not produce")
@@ -408,23 +429,17 @@ func runC27(c *core.Ctx) {
 
 	// (c) closeAfterReply
 	n = map[string]int{}
-	allowed := map[*ssa.Function]bool{wh: true}
-	if e.requestTooLarge != nil {
-		allowed[e.requestTooLarge] = true
-	}
-	if e.finishRequest != nil {
-		allowed[e.finishRequest] = true
-	}
+	allowed := h1bRegionSet(c.P, wh, e.requestTooLarge, e.finishRequest)
 	for _, st := range core.FieldStores(all, e.closeAfter) {
 		kf := core.FuncKey(st.Fn)
 		v, isB := h1bConstBool(st.Store.Val)
-		ok := allowed[st.Fn] && isB && (v || st.Fn == wh)
+		ok := allowed[st.Fn] && isB && (v || whRegion[st.Fn])
 		c.Check("close-writers", h1bOrd(kf+fmt.Sprintf(":=%v", core.Render(st.Store.Val)), n), st.Store.Pos(), ok,
 			"response.closeAfterReply is written with "+core.Render(st.Store.Val)+" in "+kf+"; reviewed writers: writeHeader (true; false only under the HTTP/1.0 keep-alive test), requestTooLarge (true), finishRequest (true)")
 	}
 	c.Min("close-writers", 3)
 	k = 0
-	core.Instrs(wh, func(in ssa.Instruction) {
+	c.P.RegionInstrs(wh, func(in ssa.Instruction) {
 		if !h1bStoreBool(in, e.closeAfter, false) {
 			return
 		}
@@ -436,26 +451,28 @@ func runC27(c *core.Ctx) {
 				return call != nil && len(call.Call.Args) == 2 && h1bIsStr(name)(call.Call.Args[1])
 			}
 		}
-		ok := h1bGuarded(b, func(f h1bFact) bool {
+		ok := h1bGuardedR(c.P, b, func(f h1bFact) bool {
 			call, isC := f.V.(*ssa.Call)
 			return isC && f.Pol && core.CallIs(&call.Call, "bfe_http.Request.WantsHttp10KeepAlive")
-		}) && h1bGuarded(b, func(f h1bFact) bool { return h1bNe(f, getIs("Content-Length"), h1bIsStr("")) }) &&
-			h1bGuarded(b, func(f h1bFact) bool { return h1bEq(f, getIs("Connection"), h1bIsStr("keep-alive")) })
+		}) && h1bGuardedR(c.P, b, func(f h1bFact) bool { return h1bNe(f, getIs("Content-Length"), h1bIsStr("")) }) &&
+			h1bGuardedR(c.P, b, func(f h1bFact) bool { return h1bEq(f, getIs("Connection"), h1bIsStr("keep-alive")) })
+		// nothing that asks for the connection to be closed can precede the reset
+		// (searched across the helpers of writeHeader)
 		var after ssa.Instruction
-		core.Instrs(wh, func(x ssa.Instruction) {
+		c.P.RegionInstrs(wh, func(x ssa.Instruction) {
 			isRTL := false
 			if ci, isCall := x.(ssa.CallInstruction); isCall && e.requestTooLarge != nil && ci.Common().StaticCallee() == e.requestTooLarge {
 				isRTL = true
 			}
-			if !storeClose(x) && !isRTL {
+			if !storeClose(x) && !isRTL || after != nil {
 				return
 			}
-			if r := core.ReachAvoiding(wh, x, nil, func(y ssa.Instruction) bool { return y == in }); r != nil {
+			if r := h1bReachR(c.P, wh, x, nil, nil, func(y ssa.Instruction) bool { return y == in }); r != nil {
 				after = x
 			}
 		})
 		c.Check("close-not-reverted", fmt.Sprintf("writeHeader:close:=false#%d", k), in.Pos(), ok && after == nil,
-			"closeAfterReply is reset to false outside the reviewed case (HTTP/1.0 keep-alive request, Content-Length present, Connection: keep-alive in the reply) or after it was set: a reply that must be delimited by closing would leave the connection open; established: "+h1bJoinFacts(h1bFactsAt(b)))
+			"closeAfterReply is reset to false outside the reviewed case (HTTP/1.0 keep-alive request, Content-Length present, Connection: keep-alive in the reply) or after it was set: a reply that must be delimited by closing would leave the connection open; established: "+h1bJoinFacts(h1bFactsAtR(c.P, b)))
 	})
 	c.Min("close-not-reverted", 1)
 	h1bServeHonoursClose(c, e, "serve-honours-close")
@@ -464,8 +481,9 @@ func runC27(c *core.Ctx) {
 	// finishRequest
 	if fr := e.finishRequest; fr != nil && e.written != nil {
 		okU := false
-		for _, st := range h1bStoresOf(fr, e.closeAfter) {
-			if b, isB := h1bConstBool(st.Val); isB && b && h1bGuarded(st.Block(), func(f h1bFact) bool {
+		for _, sto := range core.FieldStores(c.P.Region(fr), e.closeAfter) {
+			st := sto.Store
+			if b, isB := h1bConstBool(st.Val); isB && b && h1bGuardedR(c.P, st.Block(), func(f h1bFact) bool {
 				return h1bNe(f, isCLen, h1bIsField(e.written))
 			}) {
 				okU = true
@@ -478,7 +496,7 @@ func runC27(c *core.Ctx) {
 			ci, ok := x.(ssa.CallInstruction)
 			return ok && core.CallIs(ci.Common(), srv+".chunkWriter.close")
 		}
-		badR := core.MustPass(fr, nil, closeCall)
+		badR := core.MustPass(fr, nil, core.LiftMust(closeCall, 2))
 		c.Check("finish-closes-writer", "finishRequest:cw.close", fr.Pos(), badR == nil, "a path through finishRequest returns without chunkWriter.close(): the header or the last-chunk would never be written")
 		var cls []ssa.CallInstruction
 		for _, ci := range core.Calls(fr, srv+".chunkWriter.close") {
